@@ -195,7 +195,7 @@ BASE_SCRIPT = ["CREATE TABLE t (", "a int,", "b varchar(10) NOT NULL,", "c int",
 BASE_RESULT = run_lines(BASE_SCRIPT)
 NBL = len(BASE_SCRIPT)
 KIND = env_int("VF_KIND", 0)
-KINDS = ["line_dash", "line_hash", "line_block", "trail_dash", "trail_block", "multi_block"]
+KINDS = ["line_dash", "line_hash", "line_block", "trail_dash", "trail_block", "multi_block", "multi_block_banner", "trail_dash_glued"]
 
 
 def _with_comment(kind, at, text):
@@ -212,6 +212,14 @@ def _with_comment(kind, at, text):
     if kind == "trail_block":
         a = at % NBL
         return s[:a] + [s[a] + " /*" + text + " */"] + s[a + 1:], [text + " "]
+    if kind == "multi_block_banner":
+        closer = ["#### */", "---- */", "# end */", "-- done */"][len(text) % 4]  # closing line begins like a line comment
+        return s[:at] + ["/*" + text, closer] + s[at:], ["/*" + text, closer]
+    if kind == "trail_dash_glued":
+        a = at % NBL
+        if s[a][-1] in ",()":  # (glued after ',', '(' or ')' the spacing pass separates it anyway: same as trail_dash)
+            return s[:a] + [s[a] + " --" + text] + s[a + 1:], [text]
+        return s[:a] + [s[a] + "--" + text] + s[a + 1:], [text]
     mid = text.strip() or "x"  # the middle line starts with the text's first word (may be USE / INSERT / GO ...)
     return s[:at] + ["/*" + text, mid, "  " + mid, "*/"] + s[at:], ["/*" + text, mid, "  " + mid, "*/"]
 
